@@ -98,6 +98,10 @@ class Prop:
     def budget(self, tier):
         return dict(examples=200, shards=1)
 
+    def fuzz(self, tier):
+        """optional coverage-guided phase: dict(runs=<per shard>, shards=<n>, include=[library modules to instrument]) or None"""
+        return None
+
     def finite_cases(self, tier):
         return []
 
@@ -315,6 +319,45 @@ def _shard_worker(args):
     return agg
 
 
+def run_fuzz(pid, tier, seed, fz, agg):
+    """start one `python -m vf.fuzz` process per shard (fresh interpreter: the library is imported under coverage
+    instrumentation there), wait, merge their pickled aggregates.  A shard that cannot start (atheris missing) is reported as a
+    harness note, never as a violation."""
+    import pickle
+    import shutil
+    import subprocess
+    import tempfile
+
+    shards = max(1, min(int(fz.get("shards", 8)), os.cpu_count() or 1))
+    tmp = tempfile.mkdtemp(prefix=f"vfuzz_{pid}_")
+    procs = []
+    try:
+        for i in range(shards):
+            out = os.path.join(tmp, f"agg_{i}.pkl")
+            cmd = [sys.executable, "-m", "vf.fuzz", pid, tier, str(seed), str(int(fz["runs"])), str(i), out, os.path.join(tmp, f"corpus_{i}")]
+            procs.append((out, subprocess.Popen(cmd, stdout=subprocess.DEVNULL, stderr=subprocess.PIPE, cwd=VERIF)))
+        total = 0
+        for out, p in procs:
+            try:
+                _, err = p.communicate(timeout=float(fz.get("timeout", 3600)))
+            except subprocess.TimeoutExpired:
+                p.kill()
+                _, err = p.communicate()
+            if os.path.exists(out):
+                try:
+                    with open(out, "rb") as f:
+                        sub = pickle.load(f)
+                    total += sub.evaluations
+                    agg.merge(sub)
+                    continue
+                except Exception:  # noqa
+                    pass
+            agg.fuzz_notes = getattr(agg, "fuzz_notes", []) + [(err or b"").decode(errors="replace")[-400:]]
+        return total
+    finally:
+        shutil.rmtree(tmp, ignore_errors=True)
+
+
 def shrink_failure(prop, tier, sig, seed, spec0, max_seconds=120):
     """Minimise a failing spec with Hypothesis' own shrinker (hypothesis.find).  Best effort."""
     import hypothesis
@@ -425,6 +468,11 @@ def main(argv=None):
             for sub in pool.imap_unordered(_shard_worker, jobs):
                 agg.merge(sub)
     agg.n_replay = n_replay
+    # ---- coverage-guided part (atheris / libFuzzer drives the same strategy and oracle) --------------------------------
+    fz = prop.fuzz(tier) if a.examples is None else None
+    if fz and fz.get("runs", 0) > 0:
+        n_fuzz = run_fuzz(pid, tier, seed, fz, agg)
+        agg.classes["coverage_guided_execs"] = agg.classes.get("coverage_guided_execs", 0) + n_fuzz
     if (a.shrink or tier == "thorough") and agg.failures:
         for sig, f in list(agg.failures.items())[:3]:
             small = shrink_failure(prop, tier, sig, seed, f["spec"])
